@@ -136,11 +136,24 @@ let () =
     join (List.map (fun v -> Printf.sprintf "%s %d %d %d" (show_vec v) (List.length a.Crs.rows) a.Crs.ncols nz)
             (chunks_vec rp (Kernels.spmv sc sc.Scalar.s1 a x sc.Scalar.s0 y))));
 
-  (* Gershgorin: "gersh" = what the code computes (rank-local maximum),
-     "gersh_spec" = what C11 demands (serial value of the assembled matrix on every rank) *)
+  (* Gershgorin: "gersh" = rank-by-rank model of the code, one OpenMP thread per rank (per-rank maxima,
+     Allreduce(MAX)); "gersht" = the same with nt threads per rank (libgomp static schedule: contiguous
+     chunks Kernels.omp_static_lens); "gersh_spec" = what C11 demands: the SERIAL estimate
+     Cheby.gershgorin of the assembled matrix on every rank.  Since /repo ed6ca09 + 18c5201 all three agree
+     (theorem C11_gershgorin_every_partition). *)
   reg "gersh" (fun t -> let scale = (t_i t) <> 0 in let a = t_crs t in let p = t_ivec t in
     check_parts a p p;
     join (List.map show_s (Dist.dist_gershgorin sc scale (Dist.split sc a p p))));
-  reg "gersh_spec" (fun t -> let scale = (t_i t) <> 0 in let a = t_crs t in let p = t_ivec t in
+  reg "gersht" (fun t -> let scale = (t_i t) <> 0 in let nt = t_i t in let a = t_crs t in let p = t_ivec t in
     check_parts a p p;
-    join (List.map show_s (Dist.dist_gershgorin_spec sc scale a (List.length p))))
+    if nt < 1 then raise (Model_exc "runtime_error");
+    let lenss = List.map (fun n -> Kernels.omp_static_lens n nt) p in
+    join (List.map show_s (Dist.dist_gershgorin_thr sc scale lenss (Dist.split sc a p p))));
+  let spec t = let scale = (t_i t) <> 0 in let a = t_crs t in let p = t_ivec t in
+    check_parts a p p;
+    join (List.map show_s (Dist.dist_gershgorin_spec sc scale a (List.length p))) in
+  reg "gersh_spec" spec;
+  reg "gersht_spec" (fun t -> let scale = t_i t in let _nt = t_i t in
+    let a = t_crs t in let p = t_ivec t in
+    check_parts a p p;
+    join (List.map show_s (Dist.dist_gershgorin_spec sc (scale <> 0) a (List.length p))))
